@@ -364,6 +364,37 @@ func Define[C any](p *Prop, name string, draw func(*rapid.T) C, run func(*Ctx, C
 	return d
 }
 
+// ---- process warm-up (see package warm) ----
+
+var (
+	warmFn    func()
+	warmMu    sync.Mutex
+	warmCount int
+	warmDone  bool
+)
+
+// warmAfter: the work-out runs once, before the case with this ordinal (counted over all cases of the process).
+const warmAfter = 120
+
+// RegisterWarm installs the work-out (package warm does, from its init).
+func RegisterWarm(f func()) { warmFn = f }
+
+// Warmed reports whether the work-out has run in this process.
+func Warmed() bool { warmMu.Lock(); defer warmMu.Unlock(); return warmDone }
+
+func maybeWarm(force bool) {
+	warmMu.Lock()
+	warmCount++
+	run := warmFn != nil && !warmDone && (force || warmCount == warmAfter)
+	if run {
+		warmDone = true
+	}
+	warmMu.Unlock()
+	if run {
+		warmFn()
+	}
+}
+
 // guard runs the body and turns a panic that escapes it into a violation of the property: every property
 // except the "allowed only if" ones promises a result, and a crash is a failure to deliver it (C09 owns
 // crash-freedom on hostile input; the others see crashes on the inputs of their own domain; the "allowed
@@ -402,6 +433,7 @@ func (d *Def[C]) Check(t *testing.T) {
 	inflight := os.Getenv("VERIF_INFLIGHT")
 	rapid.Check(t, func(rt *rapid.T) {
 		cas := d.Draw(rt)
+		maybeWarm(false)
 		d.P.Eval()
 		if inflight != "" {
 			// a death of the process (race detector halt, OOM, fatal error) leaves the
@@ -438,6 +470,7 @@ func (d *Def[C]) Enumerate(t TB, cur *C, loop func()) {
 // One runs the body on one explicitly constructed case (enumerations,
 // regression corpus).
 func (d *Def[C]) One(t TB, cas C) {
+	maybeWarm(false)
 	d.P.Eval()
 	if inflight := os.Getenv("VERIF_INFLIGHT"); inflight != "" {
 		rf := ReplayFile{Property: d.P.ID, Test: d.Name, Sig: d.P.ID + "/process-death", Msg: "case in flight when the process died", Case: canon(cas)}
@@ -453,6 +486,10 @@ func (d *Def[C]) replay(t *testing.T, raw json.RawMessage) {
 		t.Fatalf("INCONCLUSIVE cannot decode replay case: %v", err)
 	}
 	d.P.Eval()
+	d.guard(&Ctx{P: d.P, T: t, def: d.Name, cas: cas, Mode: "replay"}, cas)
+	// the case once more after the process work-out: a violation that needs the library's other packages to have
+	// been at work first reproduces here
+	maybeWarm(true)
 	d.guard(&Ctx{P: d.P, T: t, def: d.Name, cas: cas, Mode: "replay"}, cas)
 }
 
